@@ -28,6 +28,7 @@ def _leaf_form(t):
 
 def run(chk, prog):
     ev = Evaluator(prog)
+    ev.fuse_treemaps = False  # the leapfrog step is read stage by stage (kick, drift, kick): the staged leafwise maps are kept apart
     ev.opaque_funcs |= {"selection_gradient", "sample_momenta", "assess_momenta"}
     ci, fn = prog.method("HMC", "edit", MOD)
     where = chk.where(ci.module, fn)
